@@ -220,6 +220,22 @@ def runtime_checks():
                             bad.append(dict(case='ith_unit = -1 does not select the last output unit', condition=cname, outputs=n_out))
                 except Exception as e:
                     bad.append(dict(case='ith_unit enforce raised', condition=cname, unit=j, outputs=n_out, error=f'{type(e).__name__}: {e}'))
+    # a condition bound to one unit and later re-bound to another (the same conditions reused for a second single-network solve)
+    import warnings as _w
+    with _w.catch_warnings():
+        _w.simplefilter('ignore')
+        for first, second in ((0, 2), (2, 0), (1, 1)):
+            net = FCNN(1, 3, hidden_units=(3,))
+            tt = torch.rand(4, 1, requires_grad=True)
+            c = IVP(0.25, 1.5)
+            c.set_impose_on(first)
+            c.enforce(net, tt)
+            c.set_impose_on(second)
+            ref = IVP(0.25, 1.5)
+            ref.ith_unit = second
+            if c.ith_unit != second or not torch.equal(c.enforce(net, tt), ref.enforce(net, tt)):
+                bad.append(dict(case='set_impose_on called a second time', first_unit=first, second_unit=second, unit_now=c.ith_unit,
+                                violated='the condition does not constrain the unit it was bound to last'))
     one = lambda t: t
     for mk in (lambda: IBVP1D(0., 1., 0., one, x_min_val=one, x_max_val=one), lambda: DoubleEndedBVP1D(0., 1., x_min_val=0., x_max_val=1.)):
         c = mk()
